@@ -1,4 +1,5 @@
 import Slu.Model.Ledger
+import Slu.Gen.LeakSites
 import SluProofs.Lemmas.Ledger
 /-
 C19 — No memory error or leak over any documented API lifecycle.
@@ -17,7 +18,10 @@ C19 — No memory error or leak over any documented API lifecycle.
   `growth_old_test_overflows` shows that the earlier loop test of dsnode_dfs.c violates it (D8).
 
 The C code is tied to this specification by the `lifecycle*` harness families (per-operation live
-block counts, double-free counter, ASan/UBSan, poison differential) — see tools/props.d/C19.py.
+block counts, double-free counter, ASan/UBSan, poison differential) — see tools/props.d/C19.py — and,
+for the "no call-internal block survives the call / nothing of the caller is freed" half, to the source
+TEXT on every run: `no_local_block_escapes_unreleased` at the end of this file (translator
+tools/leakscan.py -> Slu/Gen/LeakSites.lean).
 -/
 namespace Slu.C19
 open Slu.Ledger
@@ -277,5 +281,259 @@ theorem growth_old_test_overflows :
   decide
 
 example : GInv { next := 0, cap := 1 } := Or.inr (by decide)
+
+/-! ### Every locally allocated block is released or handed over on every path (regenerated from the source on every run)
+
+`lifecycle_no_leak` is about the specification `Slu.Ledger.step`: every API call releases the blocks it
+allocated for its own use (`withTemp`) and frees nothing that belongs to the caller.  `tools/leakscan.py`
+establishes the corresponding facts about the C text.  From the clang syntax tree of EVERY file of SRC/ it
+lists every call of an allocating function (the set is derived from the source: every function that returns
+what `malloc` returned, transitively — `superlu_malloc`, `intMalloc`, `doubleMalloc`, `TreePostorder`, …;
+and every function that stores a fresh block through a parameter — `SetIWork`, `at_plus_a`, `getata`, …) and
+decides, by a path-sensitive may-analysis over the control-flow graph of the enclosing function (loops,
+`goto`, early `return`, `ABORT` as no-return, `&&`/`||`/`!` decomposed into single tests), whether on every
+path from the allocation to an exit of the function the block is freed, or handed over (stored through an
+output parameter / into an object reachable from a parameter, returned, or given to a callee that stores it
+into its own parameters — `[sdcz]Create_*_Matrix`), or the allocation itself failed.  A release under a
+condition only counts when the condition provably has the value it had at the allocation: the analysis keeps
+`== c` / `∉ {c…}` facts about the tested variables and `p->f` paths and drops them at every write, at `&g`,
+at every call once `&g` exists, and (for `p->f`) at every call that may assign a field of that name.  It also
+records double frees, frees after a hand-over, every release of something reached from a parameter, and a matrix
+header built around the caller's arrays (`XCreate_CompCol_Matrix(AA, …, Astore->nzval, …)`) that is later given to
+a routine that frees those arrays (`Destroy_CompCol_Matrix(AA)` instead of `Destroy_SuperMatrix_Store(AA)`). -/
+
+open Slu.Gen
+
+/-- the four precisions of a routine family: `prec4 "" "gstrf"` = sgstrf, dgstrf, cgstrf, zgstrf -/
+def prec4 (pre post : String) : List String := ["s", "d", "c", "z"].map fun p => pre ++ p ++ post
+
+/-- Exits that leak and are GENUINE, OPEN defects of the unchanged library (reported, see DESIGN.md 12.4 and
+known_findings.json; not repaired because the repair is not small).  They are listed by finding, never
+excused as benign: `siteOk` accepts exactly these exits of these variables (plain early `return`s: an exit that
+skipped a guarded release, `bypass ≠ ""`, is never accepted here), so that every OTHER leaking path of the same
+routines still fails the theorem.  Reproducer of the two new ones: findings/L1_static_leaks.c (1 and 5 blocks). -/
+structure KnownLeak where
+  finding : String         -- name of the open finding
+  files : List String
+  funcs : List String
+  vars : List String
+  exit : String
+  causeCalls : List String -- the `return` sits under `if (<call of one of these> fails)`
+  causes : List String     -- or under exactly one of these conditions
+
+def knownLeakSites : List KnownLeak := [
+  /- D9 (open finding "[sdcz]gstrf/[sdcz]gsitrf return early when a growth request fails under library
+     allocation and leak their work arrays, the pointer arrays, ..."): `if ((*info = Xsnode_dfs(..)) != 0) return;`
+     and the like at [sdcz]gstrf.c:310,320,376,381,386 and [sdcz]gsitrf.c:391,401,476,481,495,502,539 leave
+     without releasing iperm_r, iperm_c, relax_end, xplore, xprune, … (freed only at the end of the routine). -/
+  { finding := "D9-growth-failure-returns",
+    files := prec4 "SRC/" "gstrf.c" ++ prec4 "SRC/" "gsitrf.c",
+    funcs := prec4 "" "gstrf" ++ prec4 "" "gsitrf",
+    vars := ["iperm_r", "iperm_c", "relax_end", "xplore", "xprune", "marker_relax", "swap", "iswap", "relax_fsupc", "amax",
+             "swork2", "dwork2"],
+    exit := "return",
+    causeCalls := prec4 "" "snode_dfs" ++ prec4 "" "LUMemXpand" ++ prec4 "" "column_dfs" ++ prec4 "" "column_bmod" ++
+                  prec4 "" "copy_to_ucol" ++ prec4 "ilu_" "snode_dfs" ++ prec4 "ilu_" "column_dfs" ++ prec4 "ilu_" "copy_to_ucol",
+    causes := ["error"] },      -- [sdcz]gsitrf.c:494-495 `int error = XLUMemXpand(..); if (error) { *info = error; return; }`
+  /- NEW, found by this scan: [sdcz]memory.c:283-288 — under library allocation, when the four factor arrays
+     cannot be obtained even at the smallest size (`nzlumax < annz`), XLUMemInit frees lusup/ucol/lsub/usub and
+     Glu->expanders and returns, but the five pointer arrays xsup, supno, xlsub, xlusup, xusub allocated at
+     lines 237-241 are still only in local variables: they are never released. -/
+  { finding := "LUMemInit-not-enough-memory-pointer-arrays",
+    files := prec4 "SRC/" "memory.c", funcs := prec4 "" "LUMemInit",
+    vars := ["xsup", "supno", "xlsub", "xlusup", "xusub"],
+    exit := "return", causeCalls := [], causes := ["nzlumax < annz"] },
+  /- NEW, found by this scan: [sdcz]sp_blas2.c — sp_Xtrsv allocates `work` (line 130) and then takes the
+     "quick return" `if ( L->nrow == 0 ) return 0;` / `if ( U->nrow == 0 ) return 0;` (lines 137, 191, 236, 273, …)
+     without releasing it: a zero-size block per call on an empty factor. -/
+  { finding := "sp_trsv-quick-return-work",
+    files := prec4 "SRC/" "sp_blas2.c", funcs := prec4 "sp_" "trsv", vars := ["work"],
+    exit := "return", causeCalls := [], causes := ["L->nrow == 0", "U->nrow == 0"] }
+]
+
+/-- Reviewed exceptions: exits the scanner reports because it cannot establish a fact, where the block IS
+released.  One entry per idiom, each matching only the exact exit description (kind, condition of the `return`,
+condition of the skipped release), so that a new early return or a changed guard in the same routine is not
+covered. -/
+structure Reviewed where
+  files : List String
+  funcs : List String
+  vars : List String
+  exit : String
+  cause : String
+  bypass : String
+  why : String
+
+def reviewedSites : List Reviewed := [
+  /- [sdcz]gssv.c:183-185/247-250, [sdcz]gssvx.c:499-501/580-583/665-668, [sdcz]gsisx.c:537-539/672-675 and its end:
+     `if ( A->Stype == SLU_NR ) { AA = SUPERLU_MALLOC(..); XCreate_CompCol_Matrix(AA, ..) }` … the same test
+     `if ( A->Stype == SLU_NR ) { Destroy_SuperMatrix_Store(AA); SUPERLU_FREE(AA); }` before every exit.  The scanner
+     drops the fact `A->Stype == SLU_NR` because routines called in between assign a field named Stype
+     (XCreate_*_Matrix on AA, AC, L, U — all distinct from the input matrix A, whose header no library routine
+     writes).  Not a leak; a different exit, or a different guard, is not covered by these entries. -/
+  { files := prec4 "SRC/" "gssv.c" ++ prec4 "SRC/" "gssvx.c" ++ prec4 "SRC/" "gsisx.c",
+    funcs := prec4 "" "gssv" ++ prec4 "" "gssvx" ++ prec4 "" "gsisx", vars := ["AA"],
+    exit := "end", cause := "", bypass := "A->Stype == SLU_NR",
+    why := "same test of the input header A->Stype at allocation and release; A's header is never written" },
+  { files := prec4 "SRC/" "gssvx.c", funcs := prec4 "" "gssvx", vars := ["AA"],
+    exit := "return", cause := "*info > 0", bypass := "A->Stype == SLU_NR",
+    why := "singular / out-of-space return: same test as at the allocation" },
+  { files := prec4 "SRC/" "gsisx.c", funcs := prec4 "" "gsisx", vars := ["AA"],
+    exit := "return", cause := "*info > A->ncol", bypass := "A->Stype == SLU_NR",
+    why := "out-of-space return: same test as at the allocation" },
+  /- get_perm_c.c: getata (lines 227-232) / at_plus_a (lines 357-362) allocate `*b_rowind` only `if ( *bnz )`, and
+     get_perm_c releases it only inside `if ( bnz != 0 ) { … SUPERLU_FREE(b_rowind); }`; bnz is written by the callee
+     through `&bnz` in the allocating call itself and by nothing afterwards.  The scanner treats the conditional
+     allocation in the callee as unconditional.  (b_colptr, allocated unconditionally, has no entry here.) -/
+  { files := ["SRC/get_perm_c.c"], funcs := ["get_perm_c"], vars := ["b_rowind"],
+    exit := "end", cause := "", bypass := "bnz != 0",
+    why := "allocated by the callee iff *bnz != 0, freed iff bnz != 0" },
+  /- ilu_[sdcz]copy_to_ucol.c:174-186: `work0 = work; if (m > n) work = XMalloc(m); … if ( work != work0 ) { SUPERLU_FREE(work);
+     work = work0; }` — the fresh block is never equal to the caller's array work0, so the release is taken exactly
+     when the allocation was.  Pointer (in)equality with a fresh block is not a fact the scanner keeps. -/
+  { files := prec4 "SRC/ilu_" "copy_to_ucol.c", funcs := prec4 "ilu_" "copy_to_ucol", vars := ["work"],
+    exit := "return", cause := "", bypass := "work != work0",
+    why := "released iff the pointer differs from the caller's array, i.e. iff it was allocated" }
+]
+
+/-- Reviewed sites whose record carries a flag rather than a leaking exit. -/
+structure ReviewedFlag where
+  files : List String
+  funcs : List String
+  var : String
+  kind : String
+  flag : String          -- escapes | other
+  why : String
+
+def reviewedFlags : List ReviewedFlag := [
+  /- [sdcz]gsrfs.c:223,267-271,447-449: `work` is also stored into the local dense-matrix header Bjcol
+     (`Bjcol_store->nzval = work; /* address aliasing */`) that is passed to Xgstrs (which frees nothing); both
+     `work` and `Bjcol.Store` are released once at the end (SUPERLU_FREE(work); SUPERLU_FREE(Bjcol.Store)) and the
+     routine has no early return after the allocations.  Memory of local structs is not followed by the scanner. -/
+  { files := prec4 "SRC/" "gsrfs.c", funcs := prec4 "" "gsrfs", var := "work", kind := "local", flag := "escapes",
+    why := "address also kept in the local header Bjcol; freed once through `work`" },
+  { files := prec4 "SRC/" "gsrfs.c", funcs := prec4 "" "gsrfs", var := "Bjcol.Store", kind := "other", flag := "other",
+    why := "block held in a field of a local struct; freed by SUPERLU_FREE(Bjcol.Store) before the only exit" }
+]
+
+/-- Routines that are DOCUMENTED to release what their argument holds (the `destroy` events of `Slu.Ledger`), and
+the storage layer's own bookkeeping.  Every other release of something reached from a parameter fails `siteOk`. -/
+def documentedReleasers : List String :=
+  ["superlu_free", "Destroy_SuperMatrix_Store", "Destroy_CompCol_Matrix", "Destroy_CompRow_Matrix",
+   "Destroy_SuperNode_Matrix", "Destroy_CompCol_Permuted", "Destroy_Dense_Matrix", "StatFree"] ++
+  prec4 "" "LUWorkFree" ++      -- releases the work arrays handed out by XLUWorkInit (library allocation)
+  prec4 "" "LUMemInit" ++       -- Glu->expanders, allocated by the same call a few lines earlier, on its failure returns
+  prec4 "" "expand" ++          -- the old copy of a grown array (library allocation), [sdcz]memory.c
+  ["finalize_disjoint_sets"]    -- sp_coletree.c: the array of initialize_disjoint_sets, static helpers of one routine
+
+/-- `ilu_[sdcz]copy_to_ucol` frees its parameter VARIABLE `work` only after having re-pointed it to its own block (see
+`reviewedSites`); the caller's array is never freed. -/
+def reviewedParamFrees : List (String × String) := (prec4 "ilu_" "copy_to_ucol").map fun f => (f, "work")
+
+def exitKnown (s : LeakSite) (l : LeakExit) : Bool :=
+  knownLeakSites.any fun k =>
+    k.files.contains s.file && k.funcs.contains s.func && k.vars.contains s.var && l.exit == k.exit &&
+    (k.causeCalls.contains l.causeCall || k.causes.contains l.cause) && l.bypass == "" && !l.unstable
+
+def exitReviewed (s : LeakSite) (l : LeakExit) : Bool :=
+  reviewedSites.any fun r =>
+    r.files.contains s.file && r.funcs.contains s.func && r.vars.contains s.var && l.exit == r.exit &&
+    l.cause == r.cause && l.bypass == r.bypass
+
+def flagReviewed (s : LeakSite) (flag : String) : Bool :=
+  reviewedFlags.any fun r =>
+    r.files.contains s.file && r.funcs.contains s.func && r.var == s.var && r.kind == s.kind && r.flag == flag
+
+/-- a record is in order -/
+def siteOk (s : LeakSite) : Bool :=
+  if s.kind == "local" || s.kind == "outparam" then
+    -- analysed: understood, never freed twice or after a hand-over, never overwritten while live, never given to a routine
+    -- that frees the caller's arrays it borrowed, and every exit reached with the block live is an open finding or a
+    -- reviewed exception
+    !s.notUnderstood && !s.doubleFree && !s.freeAfterHandover && !s.lost && !s.addrTaken && !s.toGlobal && !s.freesBorrowed &&
+    (!s.escapes || flagReviewed s "escapes") && s.leaks.all fun l => exitKnown s l || exitReviewed s l
+  else if s.kind == "stored" || s.kind == "returned" then
+    -- handed to the caller at birth (through a parameter / the return value), not parked in a global
+    s.handedOver && !s.toGlobal
+  else if s.kind == "paramfree" then
+    documentedReleasers.contains s.func || reviewedParamFrees.contains (s.func, s.var)
+  else if s.kind == "inactive" then true        -- text the preprocessor removes in both analysed configurations
+  else flagReviewed s "other"
+
+/-- **C19 `no_local_block_escapes_unreleased`**: in the current source, for every allocation call of SRC/ and every
+path of the enclosing function from that call to an exit of the function, the block is freed exactly once, or
+handed over to the caller / to an owning object, or the allocation had failed — except on the exits listed, by
+finding, in `knownLeakSites` (genuine open defects) and the five reviewed idioms of `reviewedSites` /
+`reviewedFlags`; and nothing reached from a parameter is freed outside the documented releasing routines.
+
+What this establishes: the "call-internal blocks do not survive the call" (`temp = 0`) and "nothing freed that the
+caller owns" halves of the ledger specification hold of the TEXT of each routine, for every path its control-flow
+graph has, on every run (an `if`-guarded release counts only when the guard provably kept its value).  What it
+does **not** establish: anything about blocks kept in memory the scanner does not follow (arrays of pointers,
+fields of local structs — flagged, two reviewed cases), about what a `Destroy_*` call frees relative to what the
+object borrowed from the caller, or about the run-time counts per object (the ledger harness compares those).
+The scanner is trusted (built-in self test; allocation calls of the syntax tree cross-checked line by line with
+the text of every file; errs towards reporting). -/
+theorem no_local_block_escapes_unreleased : ∀ s ∈ leakSites, siteOk s = true := by
+  decide +kernel
+
+/-- the scan succeeded and saw the whole library: its self check passed, all of SRC/ was parsed, the allocator set
+contains the primitives, and the table has (at least) the expected number of analysed sites — it cannot silently
+become empty or partial -/
+theorem leak_scan_complete :
+    leakOk = true ∧ 180 ≤ leakFiles ∧ 480 ≤ leakFunctions ∧ 355 ≤ leakAllocCalls ∧ 440 ≤ leakSites.length ∧
+    305 ≤ (leakSites.filter fun s => s.kind == "local" || s.kind == "outparam").length ∧
+    60 ≤ (leakSites.filter fun s => s.kind == "paramfree").length ∧
+    (["superlu_malloc", "intMalloc", "int32Malloc", "intCalloc", "int32Calloc", "floatMalloc", "doubleMalloc",
+      "singlecomplexMalloc", "doublecomplexMalloc", "mxCallocInt", "TreePostorder"].all leakAllocators.contains) = true ∧
+    (["SetIWork", "at_plus_a", "getata"].all leakOutAllocators.contains) = true ∧
+    ((prec4 "" "Create_CompCol_Matrix" ++ prec4 "" "Create_SuperNode_Matrix" ++ prec4 "" "Create_Dense_Matrix").all
+      leakOwners.contains) = true := by
+  decide +kernel
+
+/-! Non-vacuity: records that fail `siteOk`. -/
+
+/-- the `usepr` change (a release of `iperm_r` guarded by a flag that XpivotL clears through `&usepr`) -/
+example : siteOk {
+    file := "SRC/dgstrf.c", func := "dgstrf", line := 272, var := "iperm_r", allocator := "int32Malloc", kind := "local",
+    releasedOnAllPaths := false, freed := true, handedOver := false, nullChecked := false, unstableGuard := true, doubleFree := false,
+    freeAfterHandover := false, lost := false, escapes := false, addrTaken := false, notUnderstood := false, toGlobal := false,
+    freesParam := false, freesBorrowed := false,
+    leaks := [{ exit := "end", line := 0, cause := "", causeCall := "", bypass := "usepr", unstable := true }] } = false := by decide
+
+/-- an early return that skips the frees, in a routine without an open finding -/
+example : siteOk {
+    file := "SRC/dldperm.c", func := "dldperm", line := 118, var := "iw", allocator := "int32Malloc", kind := "local",
+    releasedOnAllPaths := false, freed := true, handedOver := false, nullChecked := true, unstableGuard := false, doubleFree := false,
+    freeAfterHandover := false, lost := false, escapes := false, addrTaken := false, notUnderstood := false, toGlobal := false,
+    freesParam := false, freesBorrowed := false,
+    leaks := [{ exit := "return", line := 160, cause := "info[0] == 1", causeCall := "", bypass := "", unstable := false }] } = false := by decide
+
+/-- a NEW early return in a routine that has an open finding is not covered by it (different cause) -/
+example : siteOk {
+    file := "SRC/dgstrf.c", func := "dgstrf", line := 276, var := "iperm_c", allocator := "int32Malloc", kind := "local",
+    releasedOnAllPaths := false, freed := true, handedOver := false, nullChecked := false, unstableGuard := false, doubleFree := false,
+    freeAfterHandover := false, lost := false, escapes := false, addrTaken := false, notUnderstood := false, toGlobal := false,
+    freesParam := false, freesBorrowed := false,
+    leaks := [{ exit := "return", line := 300, cause := "m == 0", causeCall := "", bypass := "", unstable := false }] } = false := by decide
+
+/-- a double free, a header around the caller's arrays destroyed deeply, and a routine that frees its caller's array -/
+example : siteOk {
+    file := "SRC/dgscon.c", func := "dgscon", line := 130, var := "work", allocator := "doubleCalloc", kind := "local",
+    releasedOnAllPaths := true, freed := true, handedOver := false, nullChecked := false, unstableGuard := false, doubleFree := true,
+    freeAfterHandover := false, lost := false, escapes := false, addrTaken := false, notUnderstood := false, toGlobal := false,
+    freesParam := false, freesBorrowed := false, leaks := [] } = false := by decide
+
+example : siteOk {
+    file := "SRC/cgssvx.c", func := "cgssvx", line := 501, var := "AA", allocator := "superlu_malloc", kind := "local",
+    releasedOnAllPaths := true, freed := true, handedOver := false, nullChecked := false, unstableGuard := false, doubleFree := false,
+    freeAfterHandover := false, lost := false, escapes := false, addrTaken := false, notUnderstood := false, toGlobal := false,
+    freesParam := false, freesBorrowed := true, leaks := [] } = false := by decide
+
+example : siteOk {
+    file := "SRC/dgstrs.c", func := "dgstrs", line := 200, var := "perm_c", allocator := "superlu_free", kind := "paramfree",
+    releasedOnAllPaths := true, freed := true, handedOver := false, nullChecked := false, unstableGuard := false, doubleFree := false,
+    freeAfterHandover := false, lost := false, escapes := false, addrTaken := false, notUnderstood := false, toGlobal := false,
+    freesParam := true, freesBorrowed := false, leaks := [] } = false := by decide
 
 end Slu.C19
